@@ -49,7 +49,10 @@ def build_module(types, omp=0, extra_compile_args=("-O0", "-w")):
         cls = xt.build(t)
         classes.append(cls)
         kernels.update(cls._gen_kernels())
-    ctx.add_kernels(kernels=kernels, extra_classes=classes, extra_compile_args=extra_compile_args, extra_link_args=())
+    if extra_compile_args == "default":  # the compile and link lines the library chooses itself
+        ctx.add_kernels(kernels=kernels, extra_classes=classes)
+    else:
+        ctx.add_kernels(kernels=kernels, extra_classes=classes, extra_compile_args=extra_compile_args, extra_link_args=())
     return ctx, kernels
 
 
